@@ -165,8 +165,7 @@ class PBCOrbitalEvaluatorKpoints:
         self.get_wrapphase = get_wrapphase_complex if iscomplex else get_wrapphase_real
 
         self.rcut = _estimate_rcut(self._cell, eval_gto_precision)
-        Ls = self._cell.get_lattice_Ls(rcut=self.rcut.max(), dimension=3)
-        self.Ls = Ls[np.argsort(np.linalg.norm(Ls, axis=1))]
+        self.Ls = get_lattice_Ls_for_orbitals(self._cell, self.rcut.max())
         if evaluate_orbitals_with == "pyscf":
             self.eval_gto = functools.partial(cell_eval_gto, self)
         elif evaluate_orbitals_with == "numba":
@@ -253,6 +252,32 @@ class PBCOrbitalEvaluatorKpoints:
 
         """
         return self.param_split[spin], ao
+
+
+def get_lattice_Ls_for_orbitals(cell, rcut):
+    """
+    Lattice vectors L for which an orbital centred on an atom of the cell, translated by +-L,
+    can exceed its cutoff value somewhere inside the cell: the translated atom is closer than
+    rcut to the slab between each pair of opposite cell faces. The list is sorted by length.
+
+    (cell.get_lattice_Ls(rcut) keeps |L| < rcut + largest interatomic distance, which suits
+    integrals between atom-centred functions but drops images that are close to points
+    near the faces and corners of the cell.)
+    """
+    lvecs = cell.lattice_vectors()
+    inv = np.linalg.inv(lvecs)
+    heights = 1.0 / np.linalg.norm(inv, axis=0)  # distance between opposite faces
+    atoms = cell.atom_coords()
+    diagonal = np.linalg.norm(np.abs(lvecs).sum(axis=0))
+    far = np.linalg.norm(atoms, axis=1).max()
+    Ls = cell.get_lattice_Ls(rcut=rcut + diagonal + far, dimension=3)
+    keep = np.zeros(len(Ls), dtype=bool)
+    for sign in (1, -1):
+        frac = (atoms[np.newaxis] + sign * Ls[:, np.newaxis]) @ inv
+        outside = np.maximum(np.maximum(frac - 1, -frac), 0) * heights
+        keep |= (outside.max(axis=-1) < rcut).any(axis=1)
+    Ls = Ls[keep]
+    return Ls[np.argsort(np.linalg.norm(Ls, axis=1))]
 
 
 def _estimate_rcut(cell, eval_gto_precision):
